@@ -243,7 +243,8 @@ impl World {
                     Ok(Built::Bytes(bytes))
                 }
             }
-            OutMode::None | OutMode::Rm3 => Ok(Built::Absent),
+            // (a directory target is no file: the snapshot shows what is inside)
+            OutMode::None | OutMode::Rm3 | OutMode::Dir3 => Ok(Built::Absent),
             OutMode::Both | OutMode::LinkBoth => Err(EvalErr::Fail(207)),
             OutMode::Link => Ok(Built::Bytes(symlink_bytes(&link_dest(&cand.arg1)))),
             OutMode::LinkDir(d) => Ok(Built::Bytes(symlink_bytes(&d))),
